@@ -234,3 +234,37 @@ fn c19_version_step() {
     kani::cover!(!changed && max_from == 1 && p == 2 && n == 3, "unchanged version, incremental");
     core::mem::forget((r, out, exit));
 });
+
+// C19: the recorded version reaches the disk with the next write and a second call with the same
+// version neither resets nor re-marks the header
+eager_harness!(c19_version_persist_step, 6,
+fn c19_version_persist_step() {
+    let recorded: u32 = kani::any();
+    let dep: u32 = kani::any();
+    kani::assume(recorded < 2000 && dep < 1000);
+    let mut expect = [0u64; SN];
+    let (mut out, p, _c) = any_output(&expect, L, recorded);
+    let presented = 1 + dep;
+    let r = out.validate_computed_version_or_reset(Version::new(dep));
+    assert!(r.is_ok());
+    assert!(u32::from(out.0.header().computed_version()) == presented);
+    if recorded != presented {
+        assert!(out.0.header().modified());
+        assert!(out.len() == 0 && (out.0.resets == 1 || p == 0));
+    } else {
+        assert!(!out.0.header().modified() && out.len() == p && out.0.resets == 0);
+    }
+    let w = out.write();
+    assert!(w.is_ok());
+    // survives the write: what a re-import would read is the presented version
+    assert!(out.0.persisted_cv == presented || recorded == presented);
+    assert!(!out.0.header().modified());
+    // second call with the same version: nothing happens
+    let len1 = out.len();
+    let r2 = out.validate_computed_version_or_reset(Version::new(dep));
+    assert!(r2.is_ok() && out.len() == len1 && !out.0.header().modified());
+    expect[0] = 0;
+    kani::cover!(recorded != presented && p > 0, "changed version with stored results");
+    kani::cover!(recorded == presented && p > 0, "unchanged version");
+    core::mem::forget((r, r2, w, out));
+});
